@@ -4,59 +4,69 @@ import BfeVerif.C21.Proofs
 
   `(Sys.init cap).exec acts` is the state after an arbitrary sequence `acts` of atomic steps: any
   interleaving of one reader thread (`startRead`, `readerStep`) with the critical sections of any
-  number of writer/closer threads (`write`, `close`, `brk`, `release`, `getErr`, `done`).  Disabled
+  number of writer/closer threads (`write`, `close`, `brk`, `release`, `discard`, `getErr`, `done`).  Disabled
   steps are no-ops, so quantifying over all `acts` quantifies over all schedules.
   Ghost fields: `accepted` = bytes taken by `Write` calls (`d.take n` for a Write that returned `n`),
-  `delivered` = bytes handed out by `Read` calls.
+  `delivered` = bytes handed out by `Read` calls, `ledger` = every byte that left the buffer, tagged
+  delivered / dropped.  `World.init.exec was` is an arbitrary LIFECYCLE: pipes created one after the other
+  from a shared buffer pool (`fresh` / `reuse k`), each running its own arbitrary schedule (`on i a`).
 -/
 namespace BfeVerif.C21
 
-/-- **FIFO / exactly once**: in every schedule, what was read is a prefix of what was accepted, and
-    while the buffer has not been released the remainder is exactly the buffer content — no byte is
-    lost, duplicated or reordered. -/
+/-- **FIFO / exactly once**: in every schedule, the bytes accepted by writes are, in order, exactly the
+    bytes that have left the buffer followed by the buffer content; every byte that left was either
+    handed to a Read (`true` in the ledger) or dropped by an explicit Discard / Release (`false`);
+    what reads returned is exactly the `true` part, in order — no byte is duplicated or reordered, and
+    none is lost except by an explicit drop. -/
 theorem C21_fifo (cap : Nat) (acts : List Act) :
     let s := (Sys.init cap).exec acts
-    s.delivered <+: s.accepted ∧ ∀ fb, s.p.b = some fb → s.accepted = s.delivered ++ fb.data := by
+    s.accepted = gone s.ledger ++ bufData s.p.b ∧ s.delivered = kept s.ledger := by
   intro s
-  have h := (inv_exec _ acts (inv_init cap)).fifo
-  constructor
-  · change (match s.p.b with
-      | some fb => s.accepted = s.delivered ++ fb.data
-      | none => s.delivered <+: s.accepted) at h
-    cases hb : s.p.b with
-    | none => simpa [hb] using h
-    | some fb => simp only [hb] at h; rw [h]; exact List.prefix_append _ _
-  · intro fb hb
-    change (match s.p.b with
-      | some fb => s.accepted = s.delivered ++ fb.data
-      | none => s.delivered <+: s.accepted) at h
-    simpa [hb] using h
+  have h := inv_exec _ acts (inv_init cap)
+  exact ⟨h.fifo, h.del⟩
+
+/-- without drops this is the familiar prefix form: accepted = delivered ++ buffer -/
+theorem C21_fifo_prefix (s : Sys) (hs : Reachable s) (hnd : ∀ x ∈ s.ledger, x.2 = true) :
+    s.accepted = s.delivered ++ bufData s.p.b ∧ s.delivered <+: s.accepted := by
+  have h := reachable_inv hs
+  have h1 : s.accepted = s.delivered ++ bufData s.p.b := by
+    rw [h.del, kept_eq_gone _ hnd]; exact h.fifo
+  exact ⟨h1, by rw [h1]; exact List.prefix_append _ _⟩
+
+/-- every delivered byte is an accepted byte of THIS pipe, in order, at most once -/
+theorem C21_delivered_sublist (s : Sys) (hs : Reachable s) : s.delivered.Sublist s.accepted := by
+  have h := reachable_inv hs
+  rw [h.del, h.fifo]
+  exact (kept_sublist_gone _).trans (List.sublist_append_left _ _)
 
 /-! The same statement on what an outside observer sees (this is what the trace-checking oracle of
     the driver recomputes from the implementation's own results). -/
 
 /-- **FIFO on the observable trace**: in every schedule the concatenation of all bytes returned by
-    reads is a prefix of the concatenation of all bytes writes reported as taken. -/
+    reads is an in-order sub-sequence of the concatenation of all bytes writes reported as taken. -/
 theorem C21_fifo_trace (cap : Nat) (acts : List Act) :
-    obsDelivered ((Sys.init cap).run acts).2 <+: obsAccepted acts ((Sys.init cap).run acts).2 := by
+    (obsDelivered ((Sys.init cap).run acts).2).Sublist (obsAccepted acts ((Sys.init cap).run acts).2) := by
   have hg := run_ghost (Sys.init cap) acts
-  have hf := (C21_fifo cap acts).1
+  have hf := C21_delivered_sublist ((Sys.init cap).exec acts) (Or.inl ⟨cap, acts, rfl⟩)
   rw [← run_fst] at hf
   rw [hg.1, hg.2] at hf
   simpa [Sys.init] using hf
 
-/-- once the (unreleased) buffer is empty everything accepted has been delivered -/
-theorem C21_drained_all_delivered (cap : Nat) (acts : List Act) (fb : FB)
-    (hb : ((Sys.init cap).exec acts).p.b = some fb) (he : fb.data = []) :
-    ((Sys.init cap).exec acts).delivered = ((Sys.init cap).exec acts).accepted := by
-  have := (C21_fifo cap acts).2 fb hb
-  simp [he] at this; exact this.symm
+/-- once the (unreleased) buffer is empty everything accepted has left it; if nothing was dropped,
+    everything accepted has been delivered -/
+theorem C21_drained_all_delivered (s : Sys) (hs : Reachable s) (fb : FB)
+    (hb : s.p.b = some fb) (he : fb.data = []) :
+    s.accepted = gone s.ledger ∧ ((∀ x ∈ s.ledger, x.2 = true) → s.delivered = s.accepted) := by
+  have h := reachable_inv hs
+  have h1 : s.accepted = gone s.ledger := by
+    have := h.fifo; simpa [hb, bufData, he] using this
+  exact ⟨h1, fun hnd => by rw [h.del, kept_eq_gone _ hnd, h1]⟩
 
-/-- a `Read(len n)` that returns data returns exactly the next `min n buffered` undelivered bytes -/
+/-- a `Read(len n)` that returns data returns exactly the next `min n buffered` bytes still buffered -/
 theorem C21_read_returns_next (s : Sys) (hs : Reachable s) (n : Nat) (bs : List UInt8) (s' : Sys)
     (hrd : s.rd = .ready n) (hc : s.crashed = false)
     (hstep : s.step .readerStep = (s', .read (.data bs))) :
-    bs = (s.accepted.drop s.delivered.length).take n ∧ s'.delivered = s.delivered ++ bs ∧
+    bs = (s.accepted.drop s.ledger.length).take n ∧ s'.delivered = s.delivered ++ bs ∧
       (n > 0 → bs ≠ []) := by
   have hinv := reachable_inv hs
   unfold Sys.step at hstep
@@ -65,10 +75,12 @@ theorem C21_read_returns_next (s : Sys) (hs : Reachable s) (n : Nat) (bs : List 
     rw [hr] at hstep <;> simp at hstep
   obtain ⟨hs', hbs⟩ := hstep
   have hf := hinv.fifo
-  simp only [hbuf] at hf
+  simp only [hbuf, bufData] at hf
   subst hbs
   refine ⟨?_, by rw [← hs'], ?_⟩
-  · rw [hf, FB.read_out]; simp
+  · rw [hf, FB.read_out]
+    have : (gone s.ledger).length = s.ledger.length := by simp [gone]
+    rw [← this]; simp
   · intro hn
     rw [FB.read_out]
     unfold FB.len at hl
@@ -76,22 +88,68 @@ theorem C21_read_returns_next (s : Sys) (hs : Reachable s) (n : Nat) (bs : List 
     have : min n fb.data.length = 0 := by rw [← List.length_take, h0]; rfl
     omega
 
-/-- **close after data**: a read reports the close error only when nothing accepted is undelivered
-    (as long as the buffer was not released, which drops data by design). -/
+/-- **close after data**: a read reports the close error only when nothing accepted is still buffered:
+    every accepted byte was delivered or explicitly dropped (Discard / Release). -/
 theorem C21_close_after_data (s : Sys) (hs : Reachable s) (n : Nat) (e : Err) (f : Bool)
     (hbrk : s.p.breakErr = none) (hres : (s.p.readTry n).2 = .err e f) :
-    s.p.err = some e ∧ ∀ fb, s.p.b = some fb → s.delivered = s.accepted := by
+    s.p.err = some e ∧ s.accepted = gone s.ledger := by
   have hinv := reachable_inv hs
   rcases readTry_cases s.p n with ⟨e', hb, hr⟩ | ⟨fb, hb, hbuf, hl, hr⟩ | ⟨e', hb, hd, he, hr⟩ | ⟨hq, hr⟩ <;>
     rw [hr] at hres <;> simp at hres
   · rw [hbrk] at hb; cases hb
   · refine ⟨by rw [he, hres.1], ?_⟩
-    intro fb hfb
     have hf := hinv.fifo
-    simp only [hfb] at hf
     unfold Pipe.hasData at hd
-    simp [hfb, FB.len] at hd
-    simp [hf, hd]
+    cases hfb : s.p.b with
+    | none => simpa [hfb, bufData] using hf
+    | some fb =>
+      simp [hfb, FB.len] at hd
+      simpa [hfb, bufData, hd] using hf
+
+/-- **Discard** drops exactly the buffered bytes, reports their number, delivers nothing, and the next
+    read blocks or reports the pipe's error (never old data) -/
+theorem C21_discard (s : Sys) (hc : s.crashed = false) :
+    (s.step .discard).2 = .discarded (bufData s.p.b).length ∧
+    (s.step .discard).1.delivered = s.delivered ∧ (s.step .discard).1.accepted = s.accepted ∧
+    bufData (s.step .discard).1.p.b = [] ∧ (s.step .discard).1.p.hasData = false := by
+  unfold Sys.step
+  simp only [hc]
+  cases hb : s.p.b with
+  | none => simp [hb, bufData, Pipe.hasData]
+  | some fb => simp [hb, bufData, Pipe.hasData, FB.reset, FB.len]
+
+/-! ### lifecycles: successive pipes over a shared buffer pool -/
+
+/-- **a released buffer re-enters the pool empty**, in every lifecycle -/
+theorem C21_pool_buffers_empty (was : List WAct) :
+    ∀ fb ∈ (World.init.exec was).pool, fb.data = [] ∧ fb.r = 0 :=
+  (winv_exec _ was winv_init).poolEmpty
+
+/-- **a fresh pipe starts empty**: whatever buffer the pool hands out, the new pipe has nothing buffered
+    and an empty history -/
+theorem C21_fresh_pipe_empty (was : List WAct) (a : WAct) (hnew : (∃ cap, a = .fresh cap) ∨ (∃ k, a = .reuse k))
+    (hlen : ((World.init.exec was).step a).pipes.length = (World.init.exec was).pipes.length + 1) :
+    ∃ s, ((World.init.exec was).step a).pipes = (World.init.exec was).pipes ++ [s] ∧
+      bufData s.p.b = [] ∧ s.accepted = [] ∧ s.delivered = [] ∧ s.p.err = none ∧ s.p.breakErr = none := by
+  have hw := winv_exec _ was winv_init
+  generalize World.init.exec was = w at hw hlen ⊢
+  rcases hnew with ⟨cap, rfl⟩ | ⟨k, rfl⟩
+  · exact ⟨_, rfl, by simp [Sys.fromBuffer, bufData]⟩
+  · simp only [World.step] at hlen ⊢
+    cases hk : w.pool[k]? with
+    | none => simp [hk] at hlen
+    | some fb =>
+      have hmem : fb ∈ w.pool := List.mem_of_getElem? hk
+      exact ⟨_, rfl, by simp [Sys.fromBuffer, bufData, (hw.poolEmpty fb hmem).1]⟩
+
+/-- **each pipe delivers exactly the bytes written to THAT pipe**: in every lifecycle over the shared
+    pool and for every pipe ever created, the FIFO ledger equation holds between that pipe's own
+    accepted and delivered bytes — no byte of an earlier owner of the buffer can appear. -/
+theorem C21_lifecycle_fifo (was : List WAct) (s : Sys) (hs : s ∈ (World.init.exec was).pipes) :
+    s.accepted = gone s.ledger ++ bufData s.p.b ∧ s.delivered = kept s.ledger ∧
+      s.delivered.Sublist s.accepted :=
+  have h := (winv_exec _ was winv_init).pipes s hs
+  ⟨h.fifo, h.del, C21_delivered_sublist s (Or.inr ⟨was, hs⟩)⟩
 
 /-- **break is immediate**: with a break error set, every read returns it at once, whatever is buffered -/
 theorem C21_break_immediate (p : Pipe) (e : Err) (n : Nat) (h : p.breakErr = some e) :
@@ -119,6 +177,7 @@ theorem C21_break_sticky (s : Sys) (a : Act) (h : s.p.breakErr.isSome) : (s.step
     · simp
     · exact h
   | release => simp only; split <;> exact h
+  | discard => simp only; split <;> exact h
   | startRead n => simp only; split <;> exact h
   | readerStep =>
     simp only
@@ -251,6 +310,7 @@ theorem C21_release_safe (s : Sys) (a : Act) (hc : s.crashed = false) (h : (s.st
     cases hb : s.p.b with
     | none => exact ⟨rfl, rfl⟩
     | some fb => unfold Sys.step at h; simp [hb, hc] at h
+  | discard => unfold Sys.step at h; simp only [hc] at h; cases hb : s.p.b <;> simp [hb, hc] at h
   | startRead n =>
     unfold Sys.step at h; simp only [hc] at h
     cases hrd : s.rd <;> simp [hrd, hc] at h
@@ -300,5 +360,23 @@ example : ((Sys.init 4).exec [.release, .release]).crashed = true := by decide
 /-- `Signal` wakes one waiter only: the model deliberately has ONE reader.  (With two parked readers a
     single close would wake only one of them; bfe's callers have one reader per body.) -/
 example : ((Sys.init 4).exec [.startRead 3, .readerStep, .close 1 false, .readerStep]).rd = .idle := by decide
+
+/-- a lifecycle: pipe 0 is released with two unread bytes; pipe 1 gets the same buffer from the pool,
+    sees an empty buffer, and reads back exactly its own bytes -/
+example :
+    let w := World.init.exec [.fresh 4, .on 0 (.write [1, 2, 3]), .on 0 (.startRead 1), .on 0 .readerStep,
+      .on 0 .release, .reuse 0, .on 1 (.write [9, 8]), .on 1 (.startRead 7), .on 1 .readerStep]
+    w.pool = [] ∧ (w.pipes.map (·.delivered)) = [[1], [9, 8]] ∧
+      (w.pipes.map (·.ledger)) = [[(1, true), (2, false), (3, false)], [(9, true), (8, true)]] := by decide
+
+/-- why Release must Reset: a pipe created around a buffer that still holds a byte violates the invariant
+    (its first read would return a byte nobody wrote to it) — the defect the `foreign-bytes` class names -/
+example : ¬ Inv (Sys.fromBuffer { cap := 4, r := 0, data := [7] }) := by
+  intro h; have := h.fifo; simp [Sys.fromBuffer, gone, bufData] at this
+
+/-- Discard: 2 unread bytes dropped and reported, later bytes still flow -/
+example :
+    ((Sys.init 4).run [.write [1, 2, 3], .startRead 1, .readerStep, .discard, .write [4], .startRead 9, .readerStep]).2 =
+      [.wrote 3 .none, .unit, .read (.data [1]), .discarded 2, .wrote 1 .none, .unit, .read (.data [4])] := by decide
 
 end BfeVerif.C21
